@@ -22,6 +22,7 @@ EXPLANATION = (
     'position together at its first character and builds the block from them; (5) malformed directives are reported: parse errors and '
     'recovered errors are pushed on every path; in directive mode input is only consumed by tokenising - the rest of a line is skipped only '
     'after "//"; unknown or missing directive names yield error tokens.')
+THOROUGH_RERUN = ['release']     # the same rules over the release build (no debug assertions): verified clean on the pinned tree
 ASSUMPTIONS = ['rustc type checking and MIR construction', 'LALRPOP generated parser and its production comments', 'the reviewed ledger ledgers/guards_preprocessor.json states the intended evaluation semantics']
 PL = "slicec::parsers::preprocessor::lexer::Lexer::<'input>::"
 GM = 'slicec::parsers::preprocessor::grammar::lalrpop'
